@@ -105,7 +105,9 @@ def run(ctx):
             for c in range(4 if thorough else 2):
                 out.append(e1run.Cfg(sched=r2.choice(e1suite.SCHEDS), cores=r2.choice([1, 2, 4, 8] + ([16] if thorough else [])), ranks=2 if r2.random() < 0.15 else 1,
                                      place='rand', pseed=r2.randint(1, 99), scenario=script, seed=ctx.seed, sleep=(r2.choice([0, 100, 300]), 300),
-                                     yield_=('%d:300:%d' % (ctx.seed, r2.choice([0, 50])) if r2.random() < 0.6 else None)))
+                                     # short delays everywhere, or long delays (<= 3 ms) only at the scheduling sites (around the
+                                     # completion callback / active_taskpools decrement / closing barrier), or none
+                                     yield_=r2.choice(['%d:300:0' % ctx.seed, '%d:300:50' % ctx.seed, '%d:1000:3000:8000' % ctx.seed, '%d:1000:3000:8000' % ctx.seed, None])))
             return out
         S2 = e1suite.Suite(ctx, agg.oracles, profile='tiny'); S2.nk = progs[0].nk
         S2.post = lambda res, refs_, recs, finals, marks, r, cfg, feat, files, what: oracle(ctx, res, refs_, recs, marks, r, cfg, feat, files, what, epochs)
